@@ -72,20 +72,28 @@ def build_expr(j, impl=True):
 
 
 # context entries: {"f": "destroy"|"create"|"number"|"eye", "i": k}  or {"f": "const", "m": arr}
-def build_context(j, impl=True, calls=None):
+def build_context(j, impl=True, calls=None, held=None):
     ctx = {}
     for name, e in j.items():
-        ctx[name] = _ctx_fn(name, e, impl, calls)
+        ctx[name] = _ctx_fn(name, e, impl, calls, held)
     return ctx
 
 
-def _ctx_fn(name, e, impl, calls):
+def _ctx_fn(name, e, impl, calls, held=None):
     f = e["f"]
+    kept = None
+    if f == "const" and e.get("held") and impl:
+        # a numpy array the user holds on to: the same object is handed out at every call
+        kept = np.array(j2c(e["m"]))
+        if held is not None:
+            held.append((name, kept, kept.tobytes()))
 
     def fn(dims):
         if calls is not None:
             calls.append((name, list(dims) if isinstance(dims, (list, tuple)) else dims))
         if f == "const":
+            if kept is not None:
+                return kept
             m = j2c(e["m"])
             return jnp.array(m) if impl else m
         d = dims[e["i"]]
@@ -112,7 +120,7 @@ def _ctx_fn(name, e, impl, calls):
     return fn
 
 
-def build_operation(spec, calls=None):
+def build_operation(spec, calls=None, held=None):
     """real Operation from a JSON spec"""
     fam, typ = spec["fam"], spec["type"]
     T = FAMS[fam][typ]
@@ -128,7 +136,7 @@ def build_operation(spec, calls=None):
         kw["operator"] = jnp.array(j2c(spec["operator"]))
     if "expr" in spec:
         kw["expr"] = build_expr(spec["expr"])
-        kw["context"] = build_context(spec["context"], True, calls)
+        kw["context"] = build_context(spec["context"], True, calls, held)
     if "state_types" in spec:
         kw["state_types"] = tuple(KINDCLS[k] for k in spec["state_types"])
     return Operation(T, **kw)
